@@ -282,6 +282,13 @@ def attempt (repl : Str → Str) (u : Upstream) (o : Request) : Request :=
 def forward (hop : List Str) (repl : Str → Str) (u : Upstream) (r : Request) : Request :=
   attempt repl u (createUpstreamRequest hop r)
 
+/-- What the transports of two successive attempts are handed when the first backend fails and the
+request is retried on a second one: `Proxy.ServeHTTP` restores URL and headers of the outgoing
+request (as `createUpstreamRequest` made it) before every attempt after the first. -/
+def forwardRetry (hop : List Str) (repl : Str → Str) (u1 u2 : Upstream) (r : Request) : Request × Request :=
+  let o := createUpstreamRequest hop r
+  (attempt repl u1 o, attempt repl u2 o)
+
 /-! ### the response side -/
 
 structure Response where
